@@ -156,7 +156,7 @@ theorem caseAttr_ok {E : Env} {F : Fixed} {st : St} {lp : Loop} {c : UInt8} (hI 
           unfold srcLen at hlt ⊢; rw [b2, b1]; show 0 < _ - (st.base + lp.p + 0); omega
       · obtain ⟨st1, h1, hs1⟩ := typeAttr_ok (F := F) hI
         simp only [h1, bind_ok, pure_eq_ok]
-        refine ⟨_, _, rfl, (Ext.refl hI.base_le).of_eq (by rw [hs1]) (by rw [hs1]), ?_, ?_, ?_⟩
+        refine ⟨_, _, rfl, (Ext.refl hI.base_le).of_eq (by rw [hs1]) (by rw [hs1]) (by rw [hs1]) (by rw [hs1]), ?_, ?_, ?_⟩
         · show st1.base + lp.p = _; rw [hs1]
         · rw [hs1]; exact Nat.le_refl _
         · show lp.p < srcLen E st1; unfold srcLen at hlt ⊢; rw [hs1]; exact hlt
@@ -201,8 +201,10 @@ theorem endScriptAt_ok {E : Env} {F : Fixed} {st : St} {lp : Loop} {c : UInt8} (
 /-- a `fall` that changes only fields other than `base`, `toks`, `tagIndex` and moves `p` by `k` -/
 theorem fall_same {E : Env} {st st' : St} {lp lp' : Loop} (hI : LoopInv E st lp)
     (hb : st'.base = st.base) (ht : st'.toks = st.toks) (hti : st'.tagIndex = st.tagIndex)
-    (hp : lp.p ≤ lp'.p) (hlt : lp'.p < srcLen E st) : CaseGood E st lp (.fall st' lp') :=
-  FallGood.same hI hb ht (by rw [hti]; exact Nat.le_refl _) hp hlt
+    (hp : lp.p ≤ lp'.p) (hlt : lp'.p < srcLen E st)
+    (hcx : st'.contexts = st.contexts := by rfl) (hbs : st'.bases = st.bases := by rfl) :
+    CaseGood E st lp (.fall st' lp') :=
+  FallGood.same hI hb ht (by rw [hti]; exact Nat.le_refl _) hp hlt hcx hbs
 
 theorem caseCSS_ok {E : Env} {F : Fixed} {st : St} {lp : Loop} {c : UInt8} (hI : LoopInv E st lp)
     (hlt : lp.p < srcLen E st) :
@@ -223,7 +225,7 @@ theorem caseCSS_ok {E : Env} {F : Fixed} {st : St} {lp : Loop} {c : UInt8} (hI :
   · split
     · split
       · rename_i hpk
-        have := peek_some_lt_srcLen hpk
+        have := hpk.elim peek_some_lt_srcLen peek_some_lt_srcLen
         exact ⟨_, rfl, fall_same hI rfl rfl rfl (by show lp.p ≤ lp.p + 1; omega) (by show lp.p + 1 < _; omega)⟩
       · exact ⟨_, rfl, fall_same hI rfl rfl rfl (Nat.le_refl _) hlt⟩
     · split
@@ -276,7 +278,7 @@ theorem caseJSString_ok {E : Env} {F : Fixed} {st : St} {lp : Loop} {c : UInt8} 
   split
   · split
     · rename_i hpk
-      have := peek_some_lt_srcLen hpk
+      have := hpk.elim peek_some_lt_srcLen peek_some_lt_srcLen
       exact ⟨_, rfl, fall_same hI rfl rfl rfl (by show lp.p ≤ lp.p + 1; omega) (by show lp.p + 1 < _; omega)⟩
     · exact ⟨_, rfl, fall_same hI rfl rfl rfl (Nat.le_refl _) hlt⟩
   · split
